@@ -79,6 +79,28 @@ def payload(idx: int, outcome: str) -> int:
     return 7 * idx + 3
 
 
+def slow_task(idx: int, each_ms: int) -> int:
+    """ a task that needs at least each_ms (module level: must be picklable) """
+    time.sleep(each_ms / 1000.0)
+    return idx
+
+
+def _timed_batches(first_id: int):
+    """ batches in which no single task outlasts the timeout but the batch as a whole cannot finish within it """
+    from antismash.common.subprocessing import parallel_function  # pylint: disable=import-outside-toplevel
+    events, by_id = [], {}
+    configs = [(8, 2, 300, 800), (6, 3, 400, 600), (9, 4, 250, 500), (5, 2, 300, 700), (4, 1, 100, 300), (6, 2, 20, 5000)]
+    for offset, (count, cpus, each_ms, timeout_ms) in enumerate(configs):
+        ret = P.result(lambda: parallel_function(slow_task, [[i + 1, each_ms] for i in range(count)], cpus=cpus,
+                                                 timeout=timeout_ms / 1000.0), [], _ints)
+        ident = first_id + offset
+        events.append({"id": ident, "op": "timed", "n": count, "cpus": cpus, "each_ms": each_ms, "timeout_ms": timeout_ms, "ret": ret})
+        by_id[ident] = {"op": "timed", "input": {"n": count, "cpus": cpus, "each_ms": each_ms, "timeout_ms": timeout_ms},
+                        "call": f"parallel_function(slow_task, [[i + 1, {each_ms}] for i in range({count})], cpus={cpus}, "
+                                f"timeout={timeout_ms / 1000.0})", "observed": ret, "features": ["timed_batch"], "sampled": False}
+    return events, by_id
+
+
 def forced_task(case_dir: str, idx: int, wait_for: int, outcome: str, hang_s: float) -> int:
     """ payload() behind a barrier: completes only after task `wait_for` (0: nobody) has completed. """
     if outcome == "hang":
@@ -685,6 +707,9 @@ def run(ctx):
                        len(stuck) - len(really_stuck)))
         raise MachineryError(f"{len(really_stuck) + len(broken)} schedules could not be enforced on the real pool "
                              f"(its chunking or worker count differs from Pool.tla, or the machine is overloaded): {what}")
+    timed_events, timed_by_id = _timed_batches(len(cases))
+    ctx.validate("Pool_Trace", timed_events, timed_by_id, min_per_shard=50)
+    ctx.notes["timed_batches"] = len(timed_events)
     _canaries(ctx, events)
     kinds = {}
     for case in cases:
